@@ -303,6 +303,19 @@ func fieldName(t types.Type, i int) string {
 		t = p.Elem()
 	}
 	if s, ok := t.Underlying().(*types.Struct); ok && i < s.NumFields() {
+		// the unexported fields of the lisp error are named by the part they play (their names are the author's
+		// business): the one interface-typed field holds the thrown object, the one position pointer the cursor
+		if n, isNamed := t.(*types.Named); isNamed && n.Obj().Name() == "LispError" && n.Obj().Pkg() != nil && strings.HasSuffix(n.Obj().Pkg().Path(), "/lisperror") && !s.Field(i).Exported() {
+			ft := s.Field(i).Type()
+			if types.IsInterface(ft) {
+				return "err"
+			}
+			if pt, ok := ft.(*types.Pointer); ok {
+				if pn, ok := pt.Elem().(*types.Named); ok && pn.Obj().Name() == "Position" {
+					return "cursor"
+				}
+			}
+		}
 		return s.Field(i).Name()
 	}
 	return fmt.Sprintf("#%d", i)
